@@ -1085,7 +1085,7 @@ func gen(r *hlib.Rand, id int) Spec {
 		if len(pj.StorageProof) == 0 || pj.StorageProof[0] == nil {
 			break // a previous mutation removed the storage proof; nothing left to vary
 		}
-		m := r.Intn(40)
+		m := r.Intn(42) // 39..41: value-length-variant
 		switch m {
 		case 0, 1: // truncated / corrupted account proof
 			pj.AccountProof = mutNodes(pj.AccountProof, r.Intn(7))
@@ -1256,6 +1256,9 @@ func gen(r *hlib.Rand, id int) Spec {
 			sp.Family += "+other-path"
 			sp.Honest = false
 		case 29: // non-canonical or odd RLP stored in the trie at the slot
+			if len(sp.Worlds[0].Accounts) == 0 || sp.Worlds[0].Accounts[0].Addr != hx(contract) {
+				continue // a previous mutation removed the contract account
+			}
 			tw := trimZeros(word)
 			var rawv []byte
 			switch r.Intn(6) {
@@ -1374,6 +1377,9 @@ func gen(r *hlib.Rand, id int) Spec {
 			sp.Family += "+node-hex-garbled"
 			sp.Honest = false
 		case 36: // contract account missing from the world (absence proof of the account)
+			if len(sp.Worlds[0].Accounts) == 0 || sp.Worlds[0].Accounts[0].Addr != hx(contract) {
+				continue
+			}
 			sp.Worlds[0].Accounts = sp.Worlds[0].Accounts[1:]
 			nb := buildWorld(sp.Worlds[0])
 			pj.AccountProof = hexList(prove(nb.state, crypto.Keccak256(contract)))
@@ -1381,6 +1387,9 @@ func gen(r *hlib.Rand, id int) Spec {
 			sp.Honest = false
 			bw0 = nb
 		case 37: // state trie holds something that is not the account RLP the proof fields rebuild
+			if len(sp.Worlds[0].Accounts) == 0 || sp.Worlds[0].Accounts[0].Addr != hx(contract) {
+				continue
+			}
 			a0 := &sp.Worlds[0].Accounts[0]
 			v, _ := rlp.EncodeToBytes(&acctRLP{Nonce: nonce, Balance: balance, Root: ba.root, CodeHash: codeHash[:31]})
 			a0.RawAcct = hx(v)
@@ -1395,7 +1404,30 @@ func gen(r *hlib.Rand, id int) Spec {
 				pj.StorageHash = "0x" + hx(ts)
 			}
 			sp.Family += "+overlong-hash-field"
-		default: // the commitment's padding: value with leading zeros checked against the zero-stripped trie value
+		default: // (39) the claimed value in another LENGTH: same significant bytes, not a 32-byte word
+			tw := trimZeros(word)
+			var b []byte
+			switch r.Intn(5) {
+			case 0:
+				b = tw // zero-stripped (what the trie stores)
+			case 1:
+				b = append([]byte{0}, word...) // 33 bytes
+			case 2:
+				b = append(make([]byte, 1+r.Intn(4)), word...) // 33..36 bytes
+			case 3:
+				if len(tw) < 32 {
+					b = word[1:] // 31 bytes, still left-padded
+				} else {
+					b = tw[:31]
+				}
+			default:
+				b = append(append([]byte{}, word...), 0) // 33 bytes, zero appended
+			}
+			if !bytes.Equal(b, word) {
+				sp.Commitment = hx(b)
+				sp.Family += "+value-length-variant"
+				sp.Honest = false
+			}
 		}
 	}
 	if raw == nil {
